@@ -14,18 +14,18 @@ import (
 )
 
 type Config[S any] struct {
-	Name     string
-	NOps     int
-	OpName   func(op int) string
-	New      func() S                       // fresh system (implementation + reference model)
-	Apply    func(s S, op int) string       // perform op; non-empty result = violation
-	Canon    func(s S) string               // canonical state key
-	Check    func(s S) string               // invariant evaluated in every new state
-	Enabled  func(s S, op int) bool         // optional
-	MaxDepth int                            // <=0: until fixpoint
+	Name      string
+	NOps      int
+	OpName    func(op int) string
+	New       func() S                 // fresh system (implementation + reference model)
+	Apply     func(s S, op int) string // perform op; non-empty result = violation
+	Canon     func(s S) string         // canonical state key
+	Check     func(s S) string         // invariant evaluated in every new state
+	Enabled   func(s S, op int) bool   // optional
+	MaxDepth  int                      // <=0: until fixpoint
 	MaxStates int
-	Workers   int                           // goroutines expanding a BFS layer (default 1)
-	Deadline time.Time
+	Workers   int // goroutines expanding a BFS layer (default 1)
+	Deadline  time.Time
 }
 
 type Failure struct {
